@@ -39,7 +39,8 @@ func (c24) Budget(tier string) int {
 func (c24) Describe() engine.Info {
 	return engine.Info{
 		Rule: "scenario = workload (test ROM from the repository / generated program / random video+audio scene with parked CPU / random bytes as code) x audio and video attached or not x random key schedule x 2..12 frames, preceded by a different 'disturber' workload run in the same process between the two in-process runs. " +
-			"Oracle: checkpoint digests every 4096 cycles and final state digest equal between run 1, run 2 (same process, after the disturber) and run 3 (fresh process, other GOMAXPROCS). Signature = (workload kind or ROM, audio, video, keys present).",
+			"Oracle: checkpoint digests every 4096 cycles and final state digest equal between run 1, run 2 (same process, after the disturber) and run 3 (fresh process, other GOMAXPROCS). Signature = (workload kind or ROM, audio, video, keys present)." +
+			" One scenario in eight stalls the host in real time inside a few cycles of the second and third run; workload irq: handlers identify themselves on the serial port while several requests are pending at once.",
 		Assumptions:    []string{"a panic of the emulator ends a run; it must then occur at the same cycle in every run (whether it may occur at all is C11's business)"},
 		RequiredProbes: []string{"child_process_runs", "frames_compared", "samples_compared", "host_stalled_mid_frame"},
 		RealComponents: realComponents, StubComponents: stubComponents,
